@@ -686,3 +686,106 @@ def check_read_first(ck, prog, rule, files=None):
                           g.name, fd_["n"], ex.line(rnode) or "?", desc, f.name, w),
                       key="%s:%s:%s" % (rule.split("-", 1)[1], g.name, fd_["n"]))
     return n
+
+
+# ---------------------------------------------------------------------------------------------------------------
+APPLY_EXCEPT = {
+    # (function, member, local): reason the update may be skipped on some path
+    ("file_info_decode", "temp_size", "new_padding"):
+        "when the whole buffer was padding the state goes back to SEQ_PADDING_SEEK, where reverse_seek() stores a new "
+        "temp_size before it is read again",
+}
+
+
+def check_local_applied(ck, prog, rule, files=None):
+    """In a resumable function a local variable dies at every return and at every `break` back to the state switch.
+    When a persistent member is updated by such a local (`coder->m += n`, `coder->m -= n`) the amount belongs to the
+    member: the update must lie on EVERY path from the local's definition to the function exit (post-dominate it),
+    otherwise there is a way to leave the state with the amount dropped, and what the member holds then depends on
+    which way the state was left (e.g. on how much input the call had)."""
+    from sa import resume
+    from .oblig import graph_for
+    n = 0
+    for f in sorted(prog.all_functions("liblzma"), key=lambda f: (f.file, f.line)):
+        if not f.blocks:
+            continue
+        base = f.file.rsplit("/", 1)[-1]
+        if files is not None and base not in files:
+            continue
+        try:
+            sw = resume.Resume(prog, f).find_switch()
+        except Exception:
+            sw = None
+        if not sw:
+            continue
+        pdom = cfg.dominators(f, forward=False)
+        mach = None
+        decls = {}
+        for b, i, e in f.iter_elems():
+            e_ = ex.deref(e) if hasattr(ex, "deref") else e
+            if e_.get("k") == "decl" and e_.get("init") is not None and e_.get("id") is not None:
+                decls[e_["id"]] = (b.id, i, e_)
+        # locals assigned anywhere else are not single-definition amounts
+        reassigned = set()
+        for b, i, e in f.iter_elems():
+            for (l, r, op, nd) in ex.writes(e):
+                ls = ex.strip(l)
+                if ls is not None and ls.get("k") == "var" and ls.get("id") in decls and \
+                        ex.deref(nd).get("k") != "decl":
+                    reassigned.add(ls["id"])
+            for x in ex.walk(e):
+                if x.get("k") == "un" and x.get("op") in ("pre++", "post++", "pre--", "post--", "&"):
+                    t = ex.strip(x["e"])
+                    if t is not None and t.get("k") == "var" and t.get("id") in decls:
+                        reassigned.add(t["id"])
+        for b, i, e in f.iter_elems():
+            for (l, r, op, nd) in ex.writes(e):
+                ls = ex.strip(l)
+                if op not in ("+=", "-=") or r is None or ls is None or ls.get("k") != "mem":
+                    continue
+                if not ex.show(ls).startswith("coder->"):
+                    continue
+                rr = ex.strip(r)
+                if rr is None or rr.get("k") != "var" or rr.get("id") not in decls or rr["id"] in reassigned:
+                    continue
+                db, di, de = decls[rr["id"]]
+                # an amount that is a pure function of persistent members is recomputed identically on re-entry
+                if not any(x.get("k") == "call" or (x.get("k") == "un" and x.get("op") == "*")
+                           for x in ex.walk(de["init"])):
+                    continue
+                n += 1
+                ck.saw_function(f)
+                exc = APPLY_EXCEPT.get((f.name, ls["f"], rr["n"]))
+                ok = exc is not None or b.id == db or b.id in pdom.get(db, ())
+                wpath = None
+                if not ok:
+                    # path-sensitive: only ways out that the caller continues from (non-fatal return values)
+                    if mach is None:
+                        mach = graph_for(prog, f, (), {}, None, False, resume=False)
+                    g = mach.g
+                    nonfatal = {mach.rets[x] for x in NONFATAL if x in mach.rets}
+
+                    def dstp(node, g=g, nonfatal=nonfatal, mach=mach):
+                        if node[0] != f.exit:
+                            return None
+                        rv = g.get(node[1], "$ret")
+                        if rv is None:
+                            return "return <unknown>"
+                        hit = set(rv) & nonfatal
+                        return ("return " + ",".join(mach.retnames[v] for v in sorted(hit))) if hit else None
+                    src = [d for node in g.nodes if node[0] == db for (d, lab) in g.succ.get(node, ())]
+                    path, hit = guard.cut_reach(g, src, set(), dstp, cut_blocks={b.id})
+                    ok = path is None
+                    if not ok:
+                        wpath = "%s, then `%s`" % (mach.describe_path(path), hit)
+                ck.ob(rule, "%s:%s:%s" % (f.name, ls["f"], rr["n"]), ok, common.where(f, nd),
+                      ("%s: `%s %s %s` lies on every path from the definition of %s (line %s) to the exit" % (
+                          f.name, ex.show(ls), op, rr["n"], rr["n"], ex.line(de)) if exc is None else "exception: " + exc)
+                      if ok else
+                      "%s(): `%s %s %s` (line %s) does not lie on every path from `%s = %s` (line %s) to the end of "
+                      "the call: via %s the function leaves with the amount in %s dropped, so %s depends on which way "
+                      "the state was left" % (
+                          f.name, ex.show(ls), op, rr["n"], ex.line(nd), rr["n"], ex.show(de["init"])[:50], ex.line(de),
+                          wpath, rr["n"], ex.show(ls)),
+                      key="%s:%s:%s:%s" % (rule.split("-", 1)[1], f.name, ls["f"], rr["n"]))
+    return n
